@@ -162,8 +162,14 @@ func (g *srcGen) inline(depth int) string {
 	return sb.String()
 }
 
+// text of an escapable raw-text element (textarea, title): character references are decoded there, markup is not
+var srcRcdata = []string{"plain", "a &amp; b", "write &amp;lt; for less-than", "type &amp;copy; for the sign", "&lt;b&gt;not bold&lt;/b&gt;", "close with &lt;/textarea&gt; please", "Q&amp;amp;A", "x &lt; y &gt; z", "&quot;q&quot; &#39;s&#39;", "<b>raw tag text</b>"}
+
 func (g *srcGen) block(depth int) string {
 	g.n++
+	if g.r.Intn(12) == 0 {
+		return `<textarea name="t">` + srcRcdata[g.r.Intn(len(srcRcdata))] + `</textarea>`
+	}
 	t := srcBlock[g.r.Intn(len(srcBlock))]
 	var sb strings.Builder
 	sb.WriteString("<" + t + g.attrs() + ">")
@@ -336,6 +342,10 @@ func interpCase(kind, pre, val, post string) *Case {
 		src = `<p :title="v">t</p>`
 	case "vhtml":
 		src = `<div v-html="v"></div>`
+	case "textarea":
+		src = `<div><textarea name="t">` + pre + `{{ v }}` + post + `</textarea></div>`
+	case "title":
+		src = `<div><title>` + pre + `{{ v }}` + post + `</title></div>`
 	}
 	res := renderPage(map[string]string{"page.vuego": src}, "page.vuego", map[string]any{"v": val})
 	c.Impl = res.canon()
@@ -366,6 +376,25 @@ func interpCase(kind, pre, val, post string) *Case {
 		return c
 	}
 	switch kind {
+	case "textarea", "title":
+		// the element holds exactly one text node with the decoded neighbours around the value, and nothing follows it inside the div
+		var host *html.Node
+		for ch := p.FirstChild; ch != nil; ch = ch.NextSibling {
+			if ch.Type == html.ElementNode && ch.Data == kind && host == nil {
+				host = ch
+			} else if ch.Type == html.ElementNode || (ch.Type == html.TextNode && strings.TrimSpace(ch.Data) != "") {
+				v.OK, v.Class, v.Detail = false, "interp-text-value:"+kind, fmt.Sprintf("the value escaped from <%s>: %q", kind, res.Out)
+				return c
+			}
+		}
+		got := ""
+		if host != nil && host.FirstChild != nil {
+			got = host.FirstChild.Data
+		}
+		if host == nil || normText(got) != normText(dec(pre)+val+dec(post)) {
+			v.OK, v.Class = false, "interp-text-value:"+kind
+			v.Detail = fmt.Sprintf("<%s> text %q, expected %q; output %q", kind, got, dec(pre)+val+dec(post), res.Out)
+		}
 	case "text":
 		var sb strings.Builder
 		for ch := p.FirstChild; ch != nil; ch = ch.NextSibling {
@@ -444,13 +473,15 @@ func runC02(r *Run, replay *Case) {
 	for i := 0; i < nRT; i++ {
 		src := g.fragment()
 		if i%10 == 0 {
-			src = "<!DOCTYPE html><html><head><title>t</title></head><body>" + src + "</body></html>"
+			title := strings.ReplaceAll(srcRcdata[g.r.Intn(len(srcRcdata))], "textarea", "title")
+			src = "<!DOCTYPE html><html><head><title>" + title + "</title></head><body>" + src + "</body></html>"
 		}
 		r.Add(roundtripCase(src, i%2 == 0))
 	}
 	vals := append([]string{}, hostileStrings...)
 	nbs := []c01Nb{{"plain", "a ", " b"}, {"none", "", ""}, {"entity", "a &amp; b; ", " c"}, {"lt", "&lt;b&gt; ", " &lt;/b&gt;"}, {"quote", "say &quot;hi&quot; ", " &#39;x&#39;"}}
-	for _, kind := range []string{"text", "attr", "bound", "vhtml"} {
+	vals = append(vals, "</textarea><b>x</b>", "</title><meta name=x>", "Q&amp;A", "&lt;")
+	for _, kind := range []string{"text", "attr", "bound", "vhtml", "textarea", "title"} {
 		for _, nb := range nbs {
 			for _, v := range vals {
 				r.Add(interpCase(kind, nb.pre, v, nb.post))
